@@ -86,24 +86,25 @@ def _check_commands(ctx, machine, buf, kinds, where):
                       (q.arg1, q.arg2))
 
 
-def _controller(ctx, buf, faults=0, kinds=(), window=None):
+def _controller(ctx, buf, faults=0, kinds=(), window=None, multi=False):
     from models.net import World
     from models.machine import Machine, ControllerPatch
     machine = Machine(ctx, buffer_size=buf)
     world = World(ctx, machine=machine, faults=faults, kinds=kinds,
-                  prompt=(faults == 0), multi_recv=False, timed=False,
-                  delays=1)
+                  prompt=(faults == 0 and not multi), multi_recv=multi,
+                  timed=False, delays=0 if multi else 1)
     return machine, world, ControllerPatch(world)
 
 
-def h_rw(ctx, op, lengths, bufs, windows=(1,), faults=0, kinds=()):
+def h_rw(ctx, op, lengths, bufs, windows=(1,), faults=0, kinds=(),
+         multi=False):
     """write / read through the MachineController."""
     from rig.machine_control import MachineController
     from models.machine import _mix
     buf = ctx.pick(bufs)
     n = ctx.pick(lengths)
     window = ctx.pick(windows)
-    machine, world, patch = _controller(ctx, buf, faults, kinds)
+    machine, world, patch = _controller(ctx, buf, faults, kinds, multi=multi)
     addr = ctx.bv("addr", 32)
     ctx.assume(addr + n <= (1 << 32))
     t = ctx.bv("t", 32)
@@ -386,6 +387,13 @@ def units(tier, seed):
         op="write", lengths=(5,), bufs=(4,), windows=(2,),
         faults=1, kinds=("lose_rep",)), split=6,
         witnesses=("wrote",), path_timeout_s=120))
+    # several datagrams drained in one wake-up of the event loop (window 2,
+    # every delivery order and grouping): each callback must still get its
+    # own reply
+    us.append(Unit("read, replies arriving together", h_rw, dict(
+        op="read", lengths=(5,), bufs=(4,), windows=(2,),
+        faults=0, kinds=(), multi=True), split=4,
+        witnesses=("read",), path_timeout_s=120))
     us.append(Unit("read with faults", h_rw, dict(
         op="read", lengths=(5,), bufs=(4,), windows=(2,),
         faults=1, kinds=("dup",)), split=6,
